@@ -88,7 +88,70 @@ func init() {
 		Note:      trusted,
 		DesignRef: "DESIGN.md §3 OM, §4 C19",
 	})
-	for _, id := range []string{"C01", "C02", "C03", "C04", "C08", "C09", "C10", "C11", "C12", "C15", "C16", "C18"} {
+	const tableTechnique = "static analysis: decision tables extracted by finite-domain abstract interpretation of go/ssa (atoms: presence of rules, members of Go enums, orderings of opaque numbers, boolean flags) compared with the cells the property pins down"
+	const tableLevel = "Each table is a complete decision, over every valuation of its finite atoms, of one structural clause of the property on the current tree; cells the statement does not determine are don't-care. Necessary conditions of the behavioural statement, not the statement as a whole."
+	property(&Property{
+		ID:    "C01",
+		Rules: []string{"T7", "T8", "TA"},
+		Explain: "T7: the JSON-kind compatibility decision of a scalar document value against a scalar example node (same kind | integer for float | null only where nullable is present; skipped only under an enum rule), extracted from checkNotAnEnum for every document kind x example kind x presence of nullable/enum. T8: required-key registration in the compiler — a property becomes required iff it is not optional (optional absent and keys not optional by default, or optional:false); optional on a non-property is rejected; the registered key is the node's own. TA: ArrayNode.Child selects example element min(i, len-1) and rejects on an empty example array, for all orderings of i against len.",
+		Assume: []string{
+			"the parallel-leaf bookkeeping of the validator tree, required-key dynamics across nested objects, duplicate/reordered keys and the depth counting of type any are relations over whole runs and are not decided",
+		},
+		Technique: tableTechnique,
+		Level:     tableLevel,
+		Note:      trusted,
+		DesignRef: "DESIGN.md §3 PE T7/T8, §4 C01",
+	})
+	property(&Property{
+		ID:    "C02",
+		Rules: []string{"T3", "T4", "T6", "T9", "T14"},
+		Explain: "T3: Min/Max.Validate accept a probe iff probe >= min (> when exclusive) / probe <= max (< when exclusive) for all orderings and flag values, the probe being the parsed document number and the bound the rule's own number (exact comparison Number.Cmp is an ordering atom; the five comparison helpers are interpreted). T4: minLength/maxLength compare the length of the decoded string, minItems/maxItems the child count, precision the number of fractional digits of the parsed number, with the right comparator for every ordering. T6: a true exclusiveMinimum/Maximum makes exactly the matching bound exclusive, a false one is inert, the helper rule is removed. T9: nullable:false and const:false are removed by the compiler's filter and nothing else is; Const.Validate is inert when false and compares with the example when true. T14: ValidateLiteralValue runs every literal rule of the node exactly once on the document literal, except that a null admitted by nullable:true is accepted without running any other rule.",
+		Assume: []string{
+			"correctness of Number.Cmp's digit arithmetic, of string decoding, and of the regex/e-mail/URI/UUID/date predicates (standard library) is not decided",
+			"enum membership on decoded values is not decided",
+		},
+		Technique: tableTechnique,
+		Level:     tableLevel,
+		Note:      trusted,
+		DesignRef: "DESIGN.md §3 PE T3/T4/T6/T9/T14, §4 C02",
+	})
+	property(&Property{
+		ID:    "C08",
+		Rules: []string{"T1", "T2", "T5", "T6", "T9", "OM-model"},
+		Explain: "T1: the applicability matrix — IsJsonTypeCompatible of every constraint type evaluated on every JSON kind equals the matrix the property states (numeric rules on numbers, precision on float, length/regex/format rules on strings, item counts on arrays, additionalProperties/allOf on objects). T2: every rule name builds the constraint of that name, unknown names are rejected. T5: paired bounds are accepted iff min<=max (strictly when either is exclusive), minLength<=maxLength, minItems<=maxItems. T6: exclusive flags without their bound are rejected. T9 + OM-model: the false-rule filter removes exactly nullable:false/const:false, and the ordered map's Filter visits every entry exactly once whatever is removed — the source of the order dependence named in the property.",
+		Assume: []string{
+			"companion-rule exclusivity counts (or / enum / any / type references with foreign rules), duplicate-rule detection and order independence beyond the filter are not decided",
+		},
+		Technique: tableTechnique,
+		Level:     tableLevel,
+		Note:      trusted,
+		DesignRef: "DESIGN.md §3 PE T1/T2/T5/T6/T9, OM, §4 C08",
+	})
+	property(&Property{
+		ID:    "C10",
+		Rules: []string{"SA-N", "FL-1", "T3"},
+		Explain: "SA-N: the automaton of the numeral recogniser behind NewNumber (state functions interpreted abstractly, counters abstracted) is compared by product construction with the RFC 8259 number automaton over all 256 bytes in every reachable state pair, including where a numeral may end. FL-1: no library function holds a floating-point value or calls strconv float conversions/math/big (the only float helper, Number.ToFloat, has no library caller). T3: bounds are compared only through the exact comparison (Number.Cmp as an ordering atom) with the correct comparator.",
+		Assume: []string{
+			"correctness of the digit-string comparison and of exponent folding/zero trimming (arithmetic over unbounded digit strings), including negative zero, is not decided",
+		},
+		Technique: "static analysis: numeral automaton extraction by abstract interpretation of go/ssa + product with the RFC 8259 number automaton; effect/who-may-call rule for floating point; comparator table",
+		Level:     "Language equivalence of the extracted numeral automaton with RFC 8259 (exhaustive), absence of floating point (exhaustive over library functions), comparator table: structural necessary conditions of exact decimal arithmetic.",
+		Note:      trusted,
+		DesignRef: "DESIGN.md §3 SA-3/FL-1/T3, §4 C10",
+	})
+	property(&Property{
+		ID:    "C16",
+		Rules: []string{"OR-1", "T12"},
+		Explain: "OR-1: inside the once-only loader the call that builds the AST dominates loader.CompileBasic, load() dominates CompileAllOf/AddUnnamedTypes/the checkers in the once-only compiler, and GetAST returns the field the built tree is stored to — the AST mirrors the text because it is taken before any compilation step rewrites or deletes constraints. T12: the declared-or-inferred schema type of a node, judged on all 16 combinations of the indicators enum/or/type/precision and every JSON kind: enum => enum, or => mixed, type => its value, precision alone => decimal, none => the JSON kind.",
+		Assume: []string{
+			"field-by-field content of AST nodes, rule order and nested items, comment attachment and the generated/manual marking are not decided",
+		},
+		Technique: "static analysis: SSA dominance (must-precede) rule + decision table extracted by abstract interpretation",
+		Level:     tableLevel,
+		Note:      trusted,
+		DesignRef: "DESIGN.md §3 OR-1/T12, §4 C16",
+	})
+	for _, id := range []string{"C03", "C04", "C09", "C11", "C12", "C15", "C18"} {
 		NotApplicable[id] = "engine for this property's structural clauses not finished yet (see DESIGN.md §4); not claimed until its rules run"
 	}
 	NotApplicable["C14"] = "an arithmetic relation between a returned length and acceptance of a prefix over all inputs; no clause has a structural form that is a genuine necessary condition and survives behaviour-preserving edits (DESIGN.md §4 C14)"
